@@ -4,3 +4,5 @@ open GoMail.Props.C08
 #print axioms part_toplevel_equals_nested
 #print axioms cached_boundary_reused
 #print axioms signature_part_shape
+#print axioms signed_render_is_tree
+#print axioms nested_content_is_tree
